@@ -266,14 +266,16 @@ def check_text_reader(run, pkg, fname, ndim, style, wtoks, light=False):
     e, at = tr(ae.deep(kws["timestep"]))
     okt = e == sp.Symbol("L1_0", real=True)
     wr_ok = wtoks is not None and len(wtoks[1]) == 1 and not isinstance(wtoks[1][0], str) and wtoks[1][0][1] == ("sym", "timestep")
-    run.ob("R-PROTO", fq, f"{cfg}:timestep", okt and wr_ok, "the timestep is read from the line (2) where the writer puts it", sp.sstr(e)[:50],
-           witness=None if okt and wr_ok else "written timestep and read timestep come from different lines", loc=loc)
+    okt_ = (okt and wr_ok) if (okt or not at) else None
+    run.ob("R-PROTO", fq, f"{cfg}:timestep", okt_, "the timestep is read from the line (2) where the writer puts it", sp.sstr(e)[:50],
+           witness=None if okt_ is not False else "written timestep and read timestep come from different lines", loc=loc)
     Lid = rr.atom_loops[0]
     L = rr.it.loops[Lid]
     e, at = tr(ae.deep(L.iter[2][0])) if L.iter and L.iter[0] == "call" and L.iter[1] == "builtins.range" and len(L.iter[2]) == 1 else (None, True)
     okn = e == sp.Symbol("L3_0", real=True)
-    run.ob("R-PROTO", fq, f"{cfg}:count", okn, "the number of atom lines read is the integer on line 4, where the writer puts the particle count", sp.sstr(e)[:50] if e is not None else "?",
-           witness=None if okn else "atom block length differs from the written count", loc=loc)
+    okn_ = okn if (okn or (e is not None and not at)) else None
+    run.ob("R-PROTO", fq, f"{cfg}:count", okn_, "the number of atom lines read is the integer on line 4, where the writer puts the particle count", sp.sstr(e)[:50] if e is not None else "?",
+           witness=None if okn_ is not False else "atom block length differs from the written count", loc=loc)
     if light:
         return
     # bounds
@@ -304,8 +306,10 @@ def check_text_reader(run, pkg, fname, ndim, style, wtoks, light=False):
         asked = [c for c in rr.asked if c[2][1] in ("x", "xs", "xu")]
         okn = bool(asked) and all(nm[0] == "sub" and nm[2] == ("slice", C(2), NONE, NONE) and nm[1][0] == "call" and nm[1][1] == ".split" and rr.line_of(nm[1][2][0]) == 8
                                   for nm in (c[3] for c in asked))
-        run.ob("R-PROTO", fq, f"{cfg}:names", okn, "the coordinate style is taken from tokens[2:] of header line 9 (writer: id type x y [z] ...)", f"{len(asked)} style tests",
-               witness=None if okn else "style detected from another line / offset", loc=loc)
+        recog = bool(asked) and all(nm[0] == "sub" and nm[1][0] == "call" and nm[1][1] == ".split" and rr.line_of(nm[1][2][0]) is not None for nm in (c[3] for c in asked))
+        okn_ = okn if (okn or recog) else None
+        run.ob("R-PROTO", fq, f"{cfg}:names", okn_, "the coordinate style is taken from tokens[2:] of header line 9 (writer: id type x y [z] ...)", f"{len(asked)} style tests",
+               witness=None if okn_ is not False else "style detected from another line / offset", loc=loc)
     # ---- atom-line stores
     a = [sp.Symbol(f"a{c}", real=True) for c in range(12)]
     sts = [ev for ev in rr.it.events if ev.kind == "store" and Lid in ev.loops]
@@ -353,14 +357,9 @@ def check_text_reader(run, pkg, fname, ndim, style, wtoks, light=False):
             and src[1][0] == "call" and src[1][1] == ".split"
     run.ob("R-IDX", fq, f"{cfg}:coords", okc, f"coordinates are tokens 3..{ndim + 2} of the atom line, counted from the front (trailing columns ignored)", show(comp)[:90],
            witness=None if okc else "coordinates read from other columns", loc=loc_of(rr.it, pstore))
-    if style == "xs":
-        oks = scale is not None and strip_alloc(ae.deep(kws["boxlength"])) == scale
-        run.ob("R-ALG", fq, f"{cfg}:scale", oks, "scaled coordinates are multiplied by the box lengths", show(scale)[:60] if scale else "no scaling",
-               witness=None if oks else "xs in [0,1) returned as Cartesian", loc=loc_of(rr.it, pstore))
-    else:
-        run.ob("R-ALG", fq, f"{cfg}:scale", scale is None, "Cartesian coordinates are stored unscaled", show(scale)[:60] if scale else "none",
-               witness=None if scale is None else "x scaled by the box", loc=loc_of(rr.it, pstore))
-    check_selection(run, rr, fq, cfg, kws, pstore, tstore, style, ndim)
+    # scaling is decided on the final positions (it may be applied per atom or to the whole array): see check_selection
+    stored_scale = scale
+    check_selection(run, rr, fq, cfg, kws, pstore, tstore, style, ndim, stored_scale)
 
 
 def check_vector_values(run, rr, fq, cfg, val, pstore, kws):
@@ -395,7 +394,7 @@ def check_vector_values(run, rr, fq, cfg, val, pstore, kws):
     run.ob("R-PROTO", fq, f"{cfg}:nparticle", okn, "nparticle is the count on line 4", show(n_ok)[:50], witness=None if okn else "count from elsewhere", loc=loc)
 
 
-def check_selection(run, rr, fq, cfg, kws, pstore, tstore, style, ndim):
+def check_selection(run, rr, fq, cfg, kws, pstore, tstore, style, ndim, stored_scale=None):
     loc = rr.fi.loc()
     PT = strip_alloc(tstore.data["target"][1]) if tstore is not None else None
     PZ = strip_alloc(pstore.data["target"][1])
@@ -429,37 +428,61 @@ def check_selection(run, rr, fq, cfg, kws, pstore, tstore, style, ndim):
     n = strip_alloc(kws["nparticle"])
     okn = n in (("sub", ("attr", T, "shape"), C(0)), ("call", "builtins.len", (T,), ()))
     run.ob("R-SEL", fq, f"{cfg}:count", okn, "nparticle is the number of selected atoms", show(n)[:60], witness=None if okn else "nparticle is the atom count of the file", loc=loc)
-    # positions post-processing
+    # positions post-processing, decided point-wise: the selection mask only picks rows, so it is dropped and the per-atom
+    # stored value (token, or token x boxlength) is substituted for the array
     sel = ("sub", PZ, m)
-    bb = strip_alloc(rr.ae.deep(kws["boxbounds"]))
-    bl = strip_alloc(rr.ae.deep(kws["boxlength"]))
+    BL = strip_alloc(kws["boxlength"])
+    BB = strip_alloc(kws["boxbounds"])
+    lo_t = ("sub", BB, ("tuple", (FULL, C(0))))
+    hi_t = ("sub", BB, ("tuple", (FULL, C(1))))
+    s_, L_, lo_s, hi_s = sp.symbols("s L lo hi", real=True)
+
+    def drop_mask(t):
+        return subst(t, lambda x: x[1] if (x[0] == "sub" and x[2] == m) else None)
+    Pp = drop_mask(P)
+    stored = s_ * (L_ if stored_scale is not None and strip_alloc(rr.ae.deep(stored_scale)) in (BL, strip_alloc(rr.ae.deep(kws["boxlength"]))) else 1)
+    if stored_scale is not None and stored == s_:
+        stored = None
+
+    def at(t):
+        if t == PZ:
+            return stored
+        if t == BL or t == strip_alloc(rr.ae.deep(kws["boxlength"])):
+            return L_
+        if t == lo_t:
+            return lo_s
+        if t == hi_t:
+            return hi_s
+        return None
+    if stored is None:
+        run.ob("R-ALG", fq, f"{cfg}:positions", None, "per-atom stored value recognised", show(stored_scale)[:60], loc=loc)
+        return
+    tr = S.Translator(at)
+    try:
+        g = tr.tr(Pp)
+    except Exception as ex:  # noqa
+        run.ob("R-ALG", fq, f"{cfg}:positions", None, "positions term translatable", str(ex)[:80], loc=loc)
+        return
     if style == "xu":
-        ok = P == sel
-        run.ob("R-ALG", fq, f"{cfg}:positions", ok, "unwrapped coordinates of the selected atoms are returned verbatim", show(P)[:80], witness=None if ok else "xu coordinates modified", loc=loc)
+        ok, how = S.decide_equal(g, s_)
+        what = "unwrapped coordinates of the selected atoms are returned verbatim"
     elif style == "xs":
-        lo = ("sub", strip_alloc(kws["boxbounds"]), ("tuple", (FULL, C(0))))
-        ok = P in (("bin", "+", sel, lo), ("bin", "+", lo, sel))
-        run.ob("R-ALG", fq, f"{cfg}:positions", ok, "scaled coordinates: selected rows (already x boxlength) + lower box corner", show(P)[:90],
-               witness=None if ok else "box with lo = (1, 2): xs = 0 must map to (1, 2)", loc=loc)
+        ok, how = S.decide_equal(g, s_ * L_ + lo_s)
+        what = "scaled coordinates of the selected atoms map to s x boxlength + lower box corner (scaling per atom or on the whole array)"
     else:
-        # where(where(p < lo, p + L, p) > hi, . - L, .)
-        w2 = P[2] if P[0] == "call" and P[1] == "numpy.where" and len(P[2]) == 3 else None
-        w1 = w2[2][2] if w2 and w2[2][0] == "call" and w2[2][1] == "numpy.where" and len(w2[2][2]) == 3 else None
+        w1 = sp.Piecewise((s_ + L_, s_ < lo_s), (s_, True))
+        ref1 = sp.Piecewise((w1 - L_, w1 > hi_s), (w1, True))
+        w2 = sp.Piecewise((s_ - L_, s_ > hi_s), (s_, True))
+        ref2 = sp.Piecewise((w2 + L_, w2 < lo_s), (w2, True))
+        ok, how = S.decide_equal(g, ref1)
+        if ok is not True:
+            ok2, how2 = S.decide_equal(g, ref2)
+            if ok2 is True:
+                ok, how = ok2, how2
+        what = "wrapped coordinates of the selected atoms: + L below lo, - L above hi, else unchanged"
+    if ok is False and tr.atoms:
         ok = None
-        if w1 and w2:
-            L_ = strip_alloc(kws["boxlength"])
-            B = strip_alloc(kws["boxbounds"])
-            lo = ("sub", B, ("tuple", (FULL, C(0))))
-            hi = ("sub", B, ("tuple", (FULL, C(1))))
-            inner = ("call", "numpy.where", (("cmp", "<", sel, lo), ("bin", "+", sel, L_), sel), ())
-            outer = ("call", "numpy.where", (("cmp", ">", inner, hi), ("bin", "-", inner, L_), inner), ())
-            inner2 = ("call", "numpy.where", (("cmp", ">", sel, hi), ("bin", "-", sel, L_), sel), ())
-            outer2 = ("call", "numpy.where", (("cmp", "<", inner2, lo), ("bin", "+", inner2, L_), inner2), ())
-            ok = P in (outer, outer2)
-            if not ok:
-                ok = False if (w1[2] == sel) else None
-        run.ob("R-ALG", fq, f"{cfg}:positions", ok, "wrapped coordinates of the selected atoms: + L below lo, - L above hi, else unchanged", show(P)[:100],
-               witness=None if ok else "a centre one box length outside is not moved back by exactly one box length", loc=loc)
+    run.ob("R-ALG", fq, f"{cfg}:positions", ok, what, f"point-wise form {sp.sstr(g)[:120]}", witness=None if ok is not False else how, loc=loc)
 
 
 def check_dict_order(run, pkg):
@@ -647,8 +670,16 @@ def check_gsd(run, pkg, fname, dcd):
     run.ob("R-FROZEN", fq, "no-field-store", not attr_stores, "positions are not assigned to a field of a (frozen) SingleSnapshot", f"{len(attr_stores)} attribute stores",
            witness=None if not attr_stores else "FrozenInstanceError for every GSD+DCD pair", loc=loc_of(it, attr_stores[0]) if attr_stores else loc)
     if len(lst_stores) != 1:
-        run.ob("R-IDX", fq, "dcd:install", None if attr_stores else False, "each frame receives its DCD positions", f"{len(lst_stores)} list stores",
-               witness=None if attr_stores else "DCD positions never attached: positions stay None", loc=loc)
+        # comprehension form: [replace(s, positions=p[:, :ndim]) for s, p in zip(snapshots, positions)]
+        okz = None
+        snaps_t = rk.get("snapshots")
+        if snaps_t is not None and snaps_t[0] == "comp" and len(snaps_t[3]) == 1 and not snaps_t[3][0][2]:
+            cv, src, _ = snaps_t[3][0]
+            elt = snaps_t[2]
+            if src[0] == "call" and src[1] == "builtins.zip" and len(src[2]) == 2 and src[2][1] == dpos and elt[0] == "call" and elt[1] == "dataclasses.replace":
+                okz = elt[2] and elt[2][0] == ("elem", cv, 0) and dict(elt[3]).get("positions") == ("sub", ("elem", cv, 1), ("tuple", (FULL, cut)))
+        run.ob("R-IDX", fq, "dcd:install", okz, "each frame receives its DCD positions (frame i <- positions[i][:, :ndim])", f"{len(lst_stores)} list stores; returned list {show(snaps_t)[:80] if snaps_t else None}",
+               witness=None if okz is not False else "frames paired with the wrong DCD frame / uncut columns", loc=loc)
         return
     e = lst_stores[0]
     Li = it.loops[e.loops[0]]
